@@ -225,6 +225,19 @@ theorem C12_roundtrip (C : Codec) (hcodec : ∀ f m b, C.dec f m (C.enc f m b) =
     simp only [decompress, hf, huser, hcodec]
     simp
 
+/-
+NOT PROVED (partial): the hypothesis `hmember` of `C12_roundtrip` should be a lemma,
+
+  theorem memberC_eq_memberD (name : String) (f : Fmt) (hf : Fmt.ofString? (fmtOfName name) = some f) :
+      memberC name (fmtOfName name) = memberD name
+
+(the zip member name written by `compress_as` — basename of the target without its last extension — is the name
+`decompress` asks for — basename of the name without its last extension).  It needs index lemmas about
+`lastIndexOf` under `take`/`drop` that were not proved; it is evaluated on examples below
+(`C12_member_examples`) and compared with `ZipFile.namelist()` by the harness on every zip case.  For gz, bz2, xz the
+member name is irrelevant to the real codecs.
+-/
+
 /-! ## non-vacuity and executable sanity tests -/
 
 /-- the member names agree on suffix-selected zip names (checked by evaluation; also compared with the real
